@@ -313,9 +313,11 @@ def callback_table_cxx(ctx, crate, cx):
         return
     il = [n for n in cxx.walk(solve[0], lambda n: n.get("kind") == "InitListExpr")
           if "DependencyProvider" in (n.get("type", {}).get("qualType", ""))]
-    ctx.floor(R, "aggregate initialiser of the callback table", len(il), 1)
-    if il:
-        names = refs(il[0])
+    tv = [v for v in cxx.walk(solve[0], lambda n: n.get("kind") == "VarDecl")
+          if "DependencyProvider" in v.get("type", {}).get("qualType", "") and "cbindgen_private" in v.get("type", {}).get("qualType", "")]
+    ctx.floor(R, "aggregate initialiser of the callback table", len(il) or len(tv), 1)
+    if il or tv:
+        names = refs(il[0]) if il else []
         want = ["provider"] + ["bridge_" + f for f in rust_fields[1:]]
         ok_tab = names == want
         detail = "initialiser lists %s" % names
@@ -471,7 +473,7 @@ def alloc_symmetry_cxx(ctx, crate, cx):
         return
     rec = [x for x in tmpl[0].get("inner", []) if x.get("kind") == "CXXRecordDecl"][0]
     calls = {}
-    for m in cxx.walk(rec, lambda n: n.get("kind") in ("CXXMethodDecl",)):
+    for m in cxx.walk(rec, lambda n: n.get("kind") in ("CXXMethodDecl",) and not n.get("verif_inlined_helper")):
         for c in cxx.walk(m, lambda n: n.get("kind") == "CallExpr"):
             callee = None
             for x in cxx.walk(c, lambda n: n.get("kind") in ("DeclRefExpr", "UnresolvedLookupExpr", "DependentScopeDeclRefExpr")):
@@ -583,6 +585,32 @@ def alloc_symmetry_cxx(ctx, crate, cx):
         ctx.ob(R, "resolvo::Vector::push_back", "argument-not-read-after-detach:%s" % ("rvalue" if "&&" in sig else "const-ref"), ok,
                "cpp/include/resolvo_vector.h",
                "the element to append is copied / moved out of the reference parameter before detach() may release the buffer it points into")
+    # the same for every other member that takes an element by reference (an `emplace_back(Args&&...)` both overloads forward to, an
+    # `insert`, ...): in source order no mention of such a parameter follows the first call of detach()
+    for m in cxx.walk(rec, lambda n: n.get("kind") == "CXXMethodDecl" and n.get("name") != "push_back"):
+        body = [x for x in m.get("inner", []) if x.get("kind") == "CompoundStmt"]
+        if not body:
+            continue
+        params = [p_.get("name") for p_ in m.get("inner", []) if p_.get("kind") == "ParmVarDecl" and p_.get("name") and
+                  "&" in p_.get("type", {}).get("qualType", "") and "Vector" not in p_.get("type", {}).get("qualType", "")]
+        if not params:
+            continue
+        seq = []
+
+        def flat(n):
+            if isinstance(n, dict):
+                seq.append(n)
+                for x in n.get("inner", []) or []:
+                    flat(x)
+        flat(body[0])
+        nm_of = lambda x: x.get("member") or x.get("name") or (x.get("referencedDecl") or {}).get("name")
+        det = [k for k, x in enumerate(seq) if x.get("kind") in ("MemberExpr", "UnresolvedMemberExpr", "CXXDependentScopeMemberExpr") and nm_of(x) == "detach"]
+        use = [k for k, x in enumerate(seq) if x.get("kind") in ("DeclRefExpr",) and nm_of(x) in params]
+        if not det:
+            continue
+        ctx.ob(R, "resolvo::Vector::%s" % m.get("name"), "argument-not-read-after-detach", not use or max(use) < min(det),
+               "cpp/include/resolvo_vector.h",
+               "a reference parameter (%s) may refer to an element of this very vector: it is not read after detach() may have released the buffer" % ", ".join(params))
     # copy-on-write protocol of push_back: detach(size + 1) before the placement new at end()
     n_pb = 0
     for m in cxx.walk(rec, lambda n: n.get("kind") == "CXXMethodDecl" and n.get("name") == "push_back"):
@@ -782,6 +810,39 @@ def raw_pointers_read_first(ctx, crate, crs):
         n += 1
         for ri, rn in reads:
             late = [cn for ci, cn in consumes if ci != ri and ri in b.reachable([ci])]
+            # `as_ref()` only makes a reference: the read through the pointer is complete where the last reference-typed value
+            # derived from it is used (`.copied()`, `*r`, a closure receiving `&T`) - all of those uses come before the consumption
+            refs = {b.blocks[ri]["term"]["dest"]["l"]}
+            grew = True
+            while grew:
+                grew = False
+                for i2, j2, s2 in b.assigns():
+                    dl = s2["p"]["l"]
+                    if dl in refs or s2["p"].get("p"):
+                        continue
+                    if "&" in b.local_ty(dl) and q.slice_locals(b, {"k": "copy", "p": s2["p"]}) & refs:
+                        refs.add(dl)
+                        grew = True
+                for i2, t2 in b.calls():
+                    dl = t2["dest"]["l"]
+                    if dl in refs or t2["dest"].get("p"):
+                        continue
+                    if "&" in b.local_ty(dl) and any((operand_place(a) or {}).get("l") in refs for a in t2["args"]):
+                        refs.add(dl)
+                        grew = True
+            uses = set()
+            for i2, t2 in b.calls():
+                if any((operand_place(a) or {}).get("l") in refs for a in t2["args"]):
+                    uses.add(i2)
+            for i2, j2, s2 in b.assigns():
+                r2 = s2["r"]
+                src = operand_place(r2["o"]) if r2["k"] == "use" else (r2.get("p") if r2["k"] in ("copyderef", "discr") else None)
+                if s2["p"]["l"] not in refs and src is not None and src.get("l") in refs:
+                    uses.add(i2)
+            for ci, cn in consumes:
+                after = b.reachable_after(ci)
+                if any(u in after for u in uses if u != ci) and cn not in late:
+                    late.append(cn)
             ctx.ob(R, b.key, "raw-pointer-read-before-vectors-are-consumed:%s" % rn, not late, where_call(b, ri),
                    "`%s` is dereferenced before any vector of the same out-structure is consumed%s" % (rn, (" (after %s)" % ", ".join(sorted(set(late)))) if late else ""))
     ctx.floor(R, "bridge functions reading raw pointers of an out-structure", n, 1)
